@@ -9,7 +9,7 @@ filtration (encode / decode).  Whole-tree operations are NOT decided by this fam
 """
 import os
 
-from vp.extract import Fn
+from vp.extract import Fn, REPO
 from vp.driver import Unit, Run, VERIF, sh
 from contracts import c13
 
@@ -444,7 +444,7 @@ def _bin(name):
     out = os.path.join(VERIF, "build", "replay_" + name)
     if out not in _built:
         os.makedirs(os.path.dirname(out), exist_ok=True)
-        inc = ["-I/repo/src/Simplex_tree/include", "-I/repo/src/common/include"]
+        inc = ["-I" + REPO + "/src/Simplex_tree/include", "-I" + REPO + "/src/common/include"]
         rc, o, e, s = sh(["g++", "-std=c++17", "-O1", "-w"] + inc + [src, "-o", out, "-ltbb"], 600)
         if rc != 0:
             raise RuntimeError("replay build failed: " + (o + e)[-1500:])
@@ -555,7 +555,7 @@ def native(tier, seed, bdir, only=None):
         return []
     os.makedirs(bdir, exist_ok=True)
     exe = os.path.join(bdir, "simplex_tree_sweep")
-    rc, o, e, s = sh(["g++", "-std=c++17", "-O2", "-w", "-I/repo/src/Simplex_tree/include", "-I/repo/src/common/include",
+    rc, o, e, s = sh(["g++", "-std=c++17", "-O2", "-w", "-I" + REPO + "/src/Simplex_tree/include", "-I" + REPO + "/src/common/include",
                       os.path.join(VERIF, "native", "simplex_tree_sweep.cpp"), "-o", exe, "-ltbb"], 900)
     if rc != 0:
         return [{"unit": uid, "status": "error", "notes": (o + e)[-1500:], "cases": 0, "failures": []}]
